@@ -292,6 +292,10 @@ class RefSig:
         self.spec = spec_table or spec()
         self.eff = effective_args(bp)
         self.cyc = cyclic_nodes(bp, self.eff)
+        # ... and those on a cycle that the hash computation can see: made of references it follows
+        # (not through ignored parameters, not into meta-flagged configurations); only these
+        # identifiers are exempt from the identifier cache
+        self.hcyc = self._hash_cyclic_nodes() if self.cyc else set()
         self.strict = strict_tasks
         self._memo = {}
         self._full = {}
@@ -311,6 +315,35 @@ class RefSig:
             if node.get("submit") is not None:
                 for p in list(node["submit"].get("init", [])) + self.pre_tasks(j, j):
                     self.cache_time.setdefault(p, j)
+
+    def _hash_cyclic_nodes(self):
+        nodes = self.bp["nodes"]
+        succ = []
+        for i, node in enumerate(nodes):
+            out = set()
+            params = self.spec[node["cls"]]["params"]
+            for name, v in self.eff[i].items():
+                kind = params[name][0] if name in params else "p"
+                if kind == "gen":
+                    continue
+                refs = [j for _, j in value_refs(v, ("ref",))]
+                if kind == "ign":
+                    refs = [j for j in refs if isinstance(v, dict) and "ref" in v and nodes[j].get("meta") is False]
+                out |= {j for j in refs if nodes[j].get("meta") is not True or (kind == "ign")}
+            succ.append(out)
+        res = set()
+        for i in self.cyc:
+            seen, stack = set(), list(succ[i])
+            while stack:
+                j = stack.pop()
+                if j == i:
+                    res.add(i)
+                    break
+                if j in seen:
+                    continue
+                seen.add(j)
+                stack.extend(succ[j])
+        return res
 
     def mark_at(self, c, t):
         """The task whose output mark configuration c carries at time t (None if unmarked)"""
@@ -409,7 +442,7 @@ class RefSig:
         t = self.END if t is None else t
         if i in path:
             return ("cycle", len(path) - path.index(i))
-        if i in self.cache_time and t > self.cache_time[i] and i not in self.cyc:
+        if i in self.cache_time and t > self.cache_time[i] and i not in self.hcyc:
             t = self.cache_time[i]  # served from the identifier cache
         memo = i not in self.cyc
         if memo and (i, t) in self._memo:
